@@ -28,6 +28,9 @@ type Index struct {
 	Unique bool   `json:"unique,omitempty"`
 	Parts  []Part `json:"parts"`
 	Where  string `json:"where,omitempty"`
+	// LowerKW: in native style the statement is written with lower-case keywords (create index ... on ... where ...),
+	// the way many people type it; SQLite keeps the text as typed in sqlite_master.
+	LowerKW bool `json:"lower_kw,omitempty"`
 }
 
 type FK struct {
@@ -287,9 +290,16 @@ func (ix Index) DDL(style Style, table string) string {
 	if ix.Unique {
 		kw = "CREATE UNIQUE INDEX "
 	}
-	s := kw + q(style, ix.Name) + " ON " + q(style, table) + " (" + strings.Join(parts, ", ") + ")"
+	on, where := " ON ", " WHERE "
+	if ix.LowerKW && style == StyleNative {
+		kw, on, where = strings.ToLower(kw), " on ", " where "
+		for i := range parts {
+			parts[i] = strings.TrimSuffix(parts[i], " DESC") + map[bool]string{true: " desc"}[strings.HasSuffix(parts[i], " DESC")]
+		}
+	}
+	s := kw + q(style, ix.Name) + on + q(style, table) + " (" + strings.Join(parts, ", ") + ")"
 	if ix.Where != "" {
-		s += " WHERE " + ix.Where
+		s += where + ix.Where
 	}
 	return s
 }
